@@ -257,7 +257,24 @@ func (g *Gen) oddSpellings(p *prng, name, base string) []string {
 }
 
 func (g *Gen) family(p *prng, name string) family {
-	return g.familyOf(p, name, pickS(p, g.class[name].versions))
+	base := pickS(p, g.class[name].versions)
+	if p.chance(1, 5) {
+		// a zero-major (or 0.0.z) base: caret, tilde and compatibility rules
+		// special-case it, and the corpora have few such versions
+		if m := baseSplit.FindStringSubmatch(base); m != nil {
+			comps := strings.Split(m[2], ".")
+			if len(comps) >= 2 && len(comps[0]) <= 4 {
+				comps[0] = "0"
+				if p.chance(1, 3) && len(comps) >= 3 {
+					comps[1] = "0"
+				}
+				if z := m[1] + strings.Join(comps, ".") + m[3]; tryV(EcoByName(name), z) {
+					base = z
+				}
+			}
+		}
+	}
+	return g.familyOf(p, name, base)
 }
 
 // familyOf builds the family of spellings around a given base string (which
@@ -305,6 +322,9 @@ func (g *Gen) familyOf(p *prng, name, base string) family {
 				b[j] = "0"
 			}
 			add(pre + join(b))
+			if i+1 < len(b) {
+				add(pre + join(b) + suf)
+			}
 			if n > 0 {
 				b[i] = strconv.Itoa(n - 1)
 				add(pre + join(b))
